@@ -1224,6 +1224,13 @@ self.storage_error("C02:searcher-unreadable", format!("after {how}: {e}"), out);
             if pubs.as_ref() != Some(&stored) {
                 out.push(Finding { kind: "model", key: "C02:impl-model-published-mismatch".into(), what: format!("after {how}: implementation publishes {}, model {}", short(&stored), resp.chars().take(300).collect::<String>()) });
             } else {
+                // the same events on the Lean machine with the bookkeeping of advance_deletes
+                // (delete_opstamp early return; C02_bookkeeping_refines says when it cannot differ)
+                ctx.report.count("impl-model:bookkeeping-compared");
+                let pubd = field(&resp, "pubD").and_then(|s| crate::model::parse_nat_list(&s));
+                if pubd.as_ref() != Some(&stored) {
+                    out.push(Finding { kind: "model", key: "C02:bookkeeping-model-published-mismatch".into(), what: format!("after {how}: implementation publishes {}, the Lean machine with the advance_deletes bookkeeping {:?} (the core machine agrees with the implementation)", short(&stored), field(&resp, "pubD")) });
+                }
                 let rets = field(&resp, "ret").and_then(|s| crate::model::parse_nat_list(&s)).unwrap_or_default();
                 let obs: Vec<Option<u64>> = self.toks.iter().map(|(_, o)| *o).collect();
                 for (k, o) in obs.iter().enumerate() {
